@@ -181,8 +181,13 @@ func vfPeerClientMain() int {
 	script := vfClientScript{ExitAfter: -1}
 	vfLoadScript(&script)
 	out := bufio.NewWriter(os.Stdout)
+	var outMu sync.Mutex      // (answers held back by "feedback-hold" are written by a timer goroutine)
+	var delayed sync.WaitGroup // ... and the client does not exit before they are out
+	defer delayed.Wait()
 	var held [][]byte
 	flushHeld := func() {
+		outMu.Lock()
+		defer outMu.Unlock()
 		for i := len(held) - 1; i >= 0; i-- {
 			_, _ = out.Write(held[i])
 		}
@@ -285,7 +290,7 @@ func vfPeerClientMain() int {
 			result := &conformancev1.ClientResponseResult{}
 			_ = proto.Unmarshal(script.Expected[req.TestName], result)
 			resp.Result = &conformancev1.ClientCompatResponse_Response{Response: result}
-			if action == "feedback" {
+			if action == "feedback" || action == "feedback-hold" {
 				// provoke real feedback from a reference server: a request whose expectation headers are wrong
 				hreq, _ := http.NewRequest(http.MethodPost, fmt.Sprintf("http://%s:%d/connectrpc.conformance.v1.ConformanceService/Unary", req.Host, req.Port), bytes.NewReader(nil))
 				hreq.Header.Set("Content-Type", "application/proto")
@@ -315,6 +320,20 @@ func vfPeerClientMain() int {
 				_ = internal.WriteDelimitedMessage(&frame, resp)
 			}
 		}
+		if action == "feedback-hold" {
+			// the feedback is out (the server has seen the request); the matching answer follows 1.5 s later, while the
+			// client goes on answering everything else
+			data := append([]byte{}, frame.Bytes()...)
+			delayed.Add(1)
+			time.AfterFunc(1500*time.Millisecond, func() {
+				defer delayed.Done()
+				outMu.Lock()
+				defer outMu.Unlock()
+				_, _ = out.Write(data)
+				_ = out.Flush()
+			})
+			continue
+		}
 		switch script.Order {
 		case "at-end":
 			held = append(held, frame.Bytes())
@@ -324,8 +343,10 @@ func vfPeerClientMain() int {
 				flushHeld()
 			}
 		default:
+			outMu.Lock()
 			_, _ = out.Write(frame.Bytes())
 			_ = out.Flush()
+			outMu.Unlock()
 		}
 		if script.CloseStdoutAfter > 0 && answers >= script.CloseStdoutAfter {
 			flushHeld()
